@@ -177,7 +177,14 @@ func concInstances(seed int64) []instance {
 	sharedProps := &lzma.Properties{LC: 2, LP: 1, PB: 3}
 	sharedXZ := xz.WriterConfig{Properties: sharedProps, DictCap: 65536, CheckSum: xz.CRC32, BlockSize: 11000}
 	sharedL2 := lzma.Writer2Config{Properties: sharedProps, DictCap: 65536}
+	// the documented way to use a configuration: Verify it once (which fills in the defaults in
+	// place), then create any number of writers from the verified value - whatever Verify left in
+	// the value is now common to all of them
+	verifiedXZ := xz.WriterConfig{DictCap: 65536, CheckSum: xz.SHA256, BlockSize: 7000}
+	verifiedXZ.Verify()
 	return []instance{
+		mkWriter("xz-writer-verified-config-1", func(w io.Writer) (wcl, error) { return verifiedXZ.NewWriter(w) }, text, false),
+		mkWriter("xz-writer-verified-config-2", func(w io.Writer) (wcl, error) { return verifiedXZ.NewWriter(w) }, rnd, false),
 		mkWriter("xz-writer-shared-config-1", func(w io.Writer) (wcl, error) { return sharedXZ.NewWriter(w) }, text, false),
 		mkWriter("xz-writer-shared-config-2", func(w io.Writer) (wcl, error) { return sharedXZ.NewWriter(w) }, text, false),
 		mkWriter("lzma2-writer-shared-props", func(w io.Writer) (wcl, error) { return sharedL2.NewWriter2(w) }, rnd, true),
@@ -402,7 +409,7 @@ func RaceWork(seed int64, rounds int, refFile string) {
 
 // C14: independent instances are safe concurrently; output deterministic.
 func C14(c *hx.Ctx) {
-	c.Rule = "(a) all interleavings at public-call granularity of pairs (2x4 calls: 70 each) and, thorough, triples (3x3: 1680) of instances drawn from {xz writer HashTable4/BinaryTree, LZMA2 writer with Flush, LZMA writer, xz/LZMA2/LZMA readers}, enumerated by TLC (Conc) and forced with channel gates; every instance's result must equal its sequential result and outputs must be identical across runs; (b) the same workloads free-running under the Go race detector with GOMAXPROCS in {2,4,16}; non-trivial = interleaving in which the instances alternate at least twice; 18 instances incl. raw-chunk continuations, wrapped-ring raw chunks, many-block writers with different checks, shared configuration values, failing readers; stand-alone references from fresh processes; yielding sinks; defaulted vs explicit configuration fields"
+	c.Rule = "(a) all interleavings at public-call granularity of pairs (2x4 calls: 70 each) and, thorough, triples (3x3: 1680) of instances drawn from {xz writer HashTable4/BinaryTree, LZMA2 writer with Flush, LZMA writer, xz/LZMA2/LZMA readers}, enumerated by TLC (Conc) and forced with channel gates; every instance's result must equal its sequential result and outputs must be identical across runs; (b) the same workloads free-running under the Go race detector with GOMAXPROCS in {2,4,16}; non-trivial = interleaving in which the instances alternate at least twice; 20 instances incl. two writers made from one configuration value after Verify, raw-chunk continuations, wrapped-ring raw chunks, many-block writers with different checks, shared configuration values, failing readers; stand-alone references from fresh processes; yielding sinks; defaulted vs explicit configuration fields"
 	c.Assumptions = []string{"TLC (Conc) for the interleavings; clause (b) (data races) is decided by the Go race detector, not by TLA+", "gates create happens-before edges, hence the separate free-running race runs"}
 	c.DesignCheck(tlc.Opts{Module: "ConcMC", Cfg: "Conc.cfg", Timeout: 3 * time.Minute, Workers: 1}, []string{"Step"})
 	gen := func(lens string) [][]int {
